@@ -366,7 +366,7 @@ func (m *monitor) keyFor(ctx context.Context, dir string, cs Case, atom string, 
 		budget = 80
 	}
 	min, runs := sqlm.Shrink(cs.Pair, still, budget)
-	key := m.c.Prop + "|" + atom + "|" + strings.Join(min.Features(), "+")
+	key := m.c.Prop + "|" + atom + "|" + strings.Join(min.FeaturesExt(), "+")
 	return key, min, runs
 }
 
@@ -462,7 +462,7 @@ func (m *monitor) evaluate(ctx context.Context, dir string, cs Case, report bool
 		} else {
 			so = runPair(ctx, dir, rc)
 		}
-		what := fmt.Sprintf("%s: %s (pair %q; shrunk to %d+%d tables, features %v)", leg, atom, cs.Name, len(min.A.Tables), len(min.B.Tables), min.Features())
+		what := fmt.Sprintf("%s: %s (pair %q; shrunk to %d+%d tables, features %v)", leg, atom, cs.Name, len(min.A.Tables), len(min.B.Tables), min.FeaturesExt())
 		c.Violation(key, what, rc, map[string]any{"original": cs, "atoms": o.Atoms, "outcome": o, "shrunk_outcome": so, "shrunk_hcl_current": min.A.HCL(), "shrunk_hcl_desired": min.B.HCL()})
 	}
 	return o
